@@ -413,7 +413,11 @@ TEXT = {
           "blocks, contract blocks and momentums, delivered to a follower before the honest data - generated contract blocks also by "
           "gossip with their empty key fields filled - and AFTER the follower verified the original and lost it in a reorganisation; "
           "whatever is accepted must be "
-          "stored with the original's bytes; known finding F9 for ChangesHash); typed RLP decoding and JSON object structure are covered by "
+          "stored with the original's bytes; known finding F9 for ChangesHash; and the complementary class: every field the hash DOES "
+          "cover altered in turn while hash, changes hash, key and signature stay, for user sends / receives, contract receives with and "
+          "without descendants, descendant sends and momentums, by gossip before / after the honest copy, inside the confirming momentum, "
+          "after confirmation and after a reorganisation - whatever the follower then holds under a hash must hash to it under the "
+          "harness's own pre-image, which is the hash oracle of the whole stream, and have the producer's bytes); typed RLP decoding and JSON object structure are covered by "
           "Go-side round-trip monitors, T4 by an AST fact plus monitors (no Lean model of the ABI): ValidateSendBlock of every "
           "method directly, and owner-signed send blocks with non-canonical call data delivered end to end to real nodes "
           "(gossip, publish, inside a momentum) - refused or stored canonical, never stored as delivered.",
